@@ -1,8 +1,13 @@
 //! C06 — the apply cache is transparent (E-HIST differential over cache capacities).
 
+use oxidd::{BooleanVecSet, FunctionSubst, Manager, ManagerRef, Subst};
+use serde_json::json;
+
+use crate::dd::{Bcdd, Bdd, BoolKind, Zbdd};
 use crate::driver::Meta;
 use crate::hist::{self, Prop};
-use crate::proto::Ctx;
+use crate::model::{self, Tab};
+use crate::proto::{Ctx, attrs};
 
 pub fn meta() -> Meta {
     Meta {
@@ -19,14 +24,148 @@ pub fn meta() -> Meta {
 const KINDS: [&str; 5] = ["bdd", "bcdd", "zbdd", "mtbdd", "tdd"];
 
 pub fn shards(tier: &str) -> Vec<String> {
-    if tier == "thorough" {
+    let mut v = if tier == "thorough" {
         hist::shards_for(&KINDS, &["n64c0t1", "n64c0t2"], 2)
     } else {
         hist::shards_for(&KINDS, &["n64c0t1"], 1)
+    };
+    // operations whose cache key has a numeric operand (substitution id, variable number)
+    for k in ["bdd", "bcdd", "zbdd"] {
+        for cap in [1, 2, 16, 4096] {
+            v.push(format!("numop:{k}:{cap}"));
+        }
     }
+    v
 }
 
 pub fn run(ctx: &mut Ctx) {
+    let shard = ctx.shard.clone();
+    if let Some(rest) = shard.strip_prefix("numop:") {
+        let (k, cap) = rest.split_once(':').unwrap();
+        let cap: usize = cap.parse().unwrap();
+        match k {
+            "bdd" => numop_subst::<Bdd>(ctx, cap),
+            "bcdd" => numop_subst::<Bcdd>(ctx, cap),
+            _ => numop_zbdd(ctx, cap),
+        }
+        return;
+    }
     let depth = if ctx.thorough() { 5 } else { 4 };
     hist::run_shard(ctx, Prop::C06, depth);
+}
+
+/// All sequences of length d over {substitute(f_i, s_j) for 2 functions x 3 persistent
+/// substitution objects, gc}: a result memoised for one substitution must never be
+/// served for another, whatever the cache capacity.
+fn numop_subst<K: BoolKind>(ctx: &mut Ctx, cap: usize)
+where
+    K::F: FunctionSubst,
+{
+    let n = 3u32;
+    let d = if ctx.thorough() { 6 } else { 5 };
+    let na = 7usize;
+    let x: Vec<Tab> = (0..3).map(|v| model::var_tab(v, 3)).collect();
+    let ftabs = [0xe8u64, 0x96];
+    let repl: [[Option<Tab>; 3]; 3] = [[Some(x[1]), None, None], [Some(x[2]), None, None], [None, Some(!x[0] & 0xff), Some(x[0] ^ x[1])]];
+    for first in 0..na {
+        ctx.group(&format!("substitution sequences first action {first}"), |ctx| {
+            for code in 0..na.pow(d as u32 - 1) {
+                let mut acts = vec![first];
+                let mut c = code;
+                for _ in 1..d {
+                    acts.push(c % na);
+                    c /= na;
+                }
+                ctx.count("evaluations", 1);
+                ctx.count("executions", 1);
+                if acts.iter().filter(|&&a| a < 6).count() >= 3 {
+                    ctx.count("nontrivial", 1);
+                }
+                let mref = crate::dd::fresh::<K>(n, &[0, 1, 2], 256, cap, 1);
+                let fs: Vec<K::F> = ftabs.iter().map(|&t| K::build(&mref, t).unwrap()).collect();
+                let substs: Vec<Subst<K::F>> = repl
+                    .iter()
+                    .map(|r| {
+                        let mut vars = vec![];
+                        let mut reps = vec![];
+                        for (v, t) in r.iter().enumerate() {
+                            if let Some(t) = t {
+                                vars.push(v as u32);
+                                reps.push(K::build(&mref, *t).unwrap());
+                            }
+                        }
+                        Subst::new(vars, reps)
+                    })
+                    .collect();
+                for (i, &a) in acts.iter().enumerate() {
+                    ctx.count("transitions", 1);
+                    if a == 6 {
+                        mref.with_manager_shared(|m| m.gc());
+                        continue;
+                    }
+                    let (fi, si) = (a / 3, a % 3);
+                    let exp = model::substitute(ftabs[fi], &repl[si], n);
+                    let got = fs[fi].substitute(&substs[si]).map(|h| K::table(&h));
+                    if got != Ok(Ok(exp)) {
+                        ctx.viol(
+                            attrs(&[("kind", K::NAME), ("class", "result_depends_on_cache"), ("last_action", "substitute")]),
+                            json!({"kind": K::NAME, "cache": cap, "actions": acts, "failed_at_step": i, "functions": ftabs, "substitutions": repl,
+                                   "legend": "action a < 6: substitute(function a/3, substitution a%3) with persistent Subst objects; 6: gc"}),
+                            &format!("C06 {} cache capacity {cap}: sequence {acts:?} step {i}: substitute(f{fi}={:#x}, s{si}) = {got:x?}, expected {exp:#x}", K::NAME, ftabs[fi]),
+                        );
+                    }
+                }
+            }
+            ctx.sample(|| json!({"kind": K::NAME, "cache": cap, "actions": [first, 1, 0, 6, 1]}));
+        });
+    }
+}
+
+/// ZBDD: all sequences over {subset0, subset1, change} x 3 variables x 2 families
+fn numop_zbdd(ctx: &mut Ctx, cap: usize) {
+    use oxidd::zbdd::ZBDDFunction;
+    let n = 3u32;
+    let d = if ctx.thorough() { 4 } else { 3 };
+    let na = 19usize;
+    let ftabs = [0x96u64, 0xe9];
+    for first in 0..na {
+        ctx.group(&format!("subset/change sequences first action {first}"), |ctx| {
+            for code in 0..na.pow(d as u32 - 1) {
+                let mut acts = vec![first];
+                let mut c = code;
+                for _ in 1..d {
+                    acts.push(c % na);
+                    c /= na;
+                }
+                ctx.count("evaluations", 1);
+                ctx.count("executions", 1);
+                ctx.count("nontrivial", 1);
+                // non-identity order so that variable numbers and levels differ
+                let mref = crate::dd::fresh::<Zbdd>(n, &[0, 2, 1], 256, cap, 1);
+                let fs: Vec<ZBDDFunction> = ftabs.iter().map(|&t| Zbdd::build(&mref, t).unwrap()).collect();
+                for (i, &a) in acts.iter().enumerate() {
+                    ctx.count("transitions", 1);
+                    if a == 18 {
+                        mref.with_manager_shared(|m| m.gc());
+                        continue;
+                    }
+                    let (fi, op, v) = (a / 9, (a % 9) / 3, (a % 3) as u32);
+                    let (exp, got) = match op {
+                        0 => (model::fam_subset0(ftabs[fi], v, n), fs[fi].subset0(v)),
+                        1 => (model::fam_subset1(ftabs[fi], v, n), fs[fi].subset1(v)),
+                        _ => (model::fam_change(ftabs[fi], v, n), fs[fi].change(v)),
+                    };
+                    let got = got.map(|h| Zbdd::table(&h));
+                    if got != Ok(Ok(exp)) {
+                        ctx.viol(
+                            attrs(&[("kind", "zbdd"), ("class", "result_depends_on_cache"), ("last_action", ["subset0", "subset1", "change"][op])]),
+                            json!({"kind": "zbdd", "cache": cap, "order": "021", "actions": acts, "failed_at_step": i, "families": ftabs,
+                                   "legend": "action a < 18: family a/9, operation (a%9)/3 in (subset0, subset1, change), variable a%3; 18: gc"}),
+                            &format!("C06 zbdd cache capacity {cap}: sequence {acts:?} step {i}: {}({:#x}, var {v}) = {got:x?}, expected {exp:#x}", ["subset0", "subset1", "change"][op], ftabs[fi]),
+                        );
+                    }
+                }
+            }
+        });
+    }
 }
